@@ -487,6 +487,11 @@ def canonAppend : Option AppendData → AppendData
   | none => { uidValidity := 0, uid := 0 }
   | some d => d
 
+/-- APPENDUID (RFC 4315 `append-uid = uniqueid`): a UID is a non-zero number -/
+def wfAppend : Option AppendData → Bool
+  | none => true
+  | some d => 0 < d.uid && d.uid < 4294967296 && d.uidValidity < 4294967296
+
 def canonCopy : Option CopyData → CopyData
   | none => { uidValidity := 0, src := [], dst := [] }
   | some d => d
